@@ -25,7 +25,7 @@ LEVEL_TEXT = ("for each sampled history every engine call of every operation is 
 TECHNIQUE = "deterministic simulation, enumerated fault points (engine error / kill+reopen) per history"
 CHUNK = 3
 CHUNK_DEADLINE = 300
-BUDGET = {"quick": {"runs": 150, "wall": 150}, "thorough": {"runs": 6000, "wall": 3000}}
+BUDGET = {"quick": {"runs": 150, "wall": 150}, "thorough": {"runs": 6000, "wall": 1200}}
 RULE = ("histories of 3-8 operations (adds incl. replaceable chains, multi-target kind-5 deletions, "
         "many-tag events, GC passes, API deletes) on SQL-file and LMDB; per history all (operation, "
         "k-th engine call) points x {error, kill+reopen}; evaluations = fault points exercised; "
